@@ -209,6 +209,99 @@ theorem suppressed_keeps_initial (decls : List Decl) (e : Event) (P : C02.Store)
   unfold step
   simp [hs, hdel, recall, hl]
 
+/-- THIRD CLAUSE at the start-up, both directions: an object found by the listing already marked for deletion
+    and still held by the operator's finalizer gets the deletion cause with the resuming handlers mixed in —
+    and a resuming handler is selected for it exactly if it opted in (`deleted=True`) and its filters match. -/
+theorem marked_listed_selected_iff_optin (decls : List Decl) (i : Id)
+    (hres : ∀ d ∈ decls, d.id = i → d.gate.initial = true ∧ d.gate.reason = none) (e : Event)
+    (hl : e.byListing = true) (hdel : e.deleted = false) (hm : e.marked = true) (hb : e.blocked = true) :
+    (causeOf (recall none e) e).reason = .delete ∧
+    (i ∈ (cfgOf decls (recall none e) e).selected ↔
+      (∃ d ∈ decls, d.id = i ∧ d.gate.deletedOptIn = true) ∧ e.matchF i = true) := by
+  have hr : C05.detectReason (inOf (recall none e) e) = .delete := by
+    simp [C05.detectReason, inOf, recall, hdel, hm, hb]
+  have hcause : causeOf (recall none e) e = { reason := .delete, initial := true, marked := true } := by
+    show C05.detect (inOf (recall none e) e) = _
+    unfold C05.detect
+    rw [hr]
+    simp [inOf, recall, hl, hm]
+  refine ⟨by rw [hcause], ?_⟩
+  simp only [cfgOf, selectedOf, List.mem_map, List.mem_filter, Bool.and_eq_true, hcause]
+  constructor
+  · rintro ⟨d, ⟨hd, ⟨hg, hmf⟩, _⟩, rfl⟩
+    obtain ⟨hini, hreason⟩ := hres d hd rfl
+    refine ⟨⟨d, hd, rfl, ?_⟩, hmf⟩
+    cases hopt : d.gate.deletedOptIn
+    · simp [C05.gate, hini, hreason, hopt] at hg
+    · rfl
+  · rintro ⟨⟨d, hd, rfl, hopt⟩, hmf⟩
+    obtain ⟨hini, hreason⟩ := hres d hd rfl
+    refine ⟨d, ⟨hd, ⟨?_, hmf⟩, ?_⟩, rfl⟩
+    · simp [C05.gate, hini, hreason, hopt]
+    · simp [recall]
+
+-- non-vacuity: one handler opted in, one did not
+example :
+    let e : Event :=
+      { byListing := true, deleted := false, marked := true, blocked := true, oldAbsent := false,
+        diffNonEmpty := false, suppressed := false, matchF := fun _ => true,
+        limits := fun _ => ⟨none, none⟩, lifecycle := .allAtOnce, now := 0, now1 := 0,
+        exec := fun _ _ => { final := true, delay := none, error := false, subrefs := [] } }
+    (step [⟨"r", ⟨none, true, true⟩⟩, ⟨"q", ⟨none, true, false⟩⟩, ⟨"d", ⟨some .delete, false, false⟩⟩] none (fun _ => none) e).invoked
+      = [("r", 0), ("d", 0)] := by decide
+
+/-- An object marked for deletion that the operator does not hold (cause FREE: kept alive by somebody else's
+    finalizer) gets no handler at all — resuming ones included, opted in or not — and the records the owned handlers
+    left behind are purged (/repo 40d09eb). -/
+theorem free_step_nothing (decls : List Decl) (m : Option Mem) (P : Store) (e : Event)
+    (hs : e.suppressed = false) (hfree : (causeOf (recall m e) e).reason = .free) :
+    (step decls m P e).invoked = [] ∧ ∀ d ∈ decls, (step decls m P e).P d.id = none := by
+  have hr : handlerReasons.contains (cfgOf decls (recall m e) e).reason = false := by
+    show handlerReasons.contains (reasonStr (causeOf (recall m e) e).reason) = false
+    rw [hfree]; decide
+  unfold step
+  simp only [hs, Bool.false_eq_true, if_false]
+  rw [cycle_not_handler_reason _ P e.now e.now1 e.exec hr]
+  refine ⟨rfl, ?_⟩
+  intro d hd
+  have hmem : d.id ∈ decls.map (·.id) := List.mem_map_of_mem hd
+  simp [freePurge, hfree, purge, hmem]
+
+/-! ### The first clause in composition with the admission webhooks (finding F10, open)
+
+`recall` above creates the memory from the first PROCESSED event of the object. The code has a second creator:
+an admission request for the object (`admission`). If one is served before the listing event of an existing object is
+processed — at the start-up the webhook server is up as soon as the resources are scanned, while the listing can
+take long or be retried; a stand-by operator paused by the peering keeps serving webhooks and lists only when it
+takes over — the object's memory exists with `noticed = false`, and the first clause is FALSE of the code:
+the object is never resumed in this process. -/
+
+/-- After an admission request (other than CREATE) for an object the operator has not processed yet, no resuming
+    handler is ever invoked for that object in this process, whatever events follow. -/
+theorem admitted_first_never_resumed (decls : List Decl) (events : List Event) (P : Store)
+    (hdel : ∀ e ∈ events, e.deleted = false) :
+    ∃ mem, admission none false = some mem ∧
+      ∀ l ∈ run decls (some mem) P events, ∀ i n, (i, n) ∈ l →
+        ¬ (∀ d ∈ decls, d.id = i → d.gate.initial = true) :=
+  ⟨{ noticed := false, fullyHandled := false }, rfl,
+   not_for_new decls events { noticed := false, fullyHandled := false } P rfl hdel⟩
+
+/-- The witness (replayed on the real code: corpus/C14/F10_admission_first.json): the very listing event that gets
+    the eligible object resumed (`eligible_invoked`) does nothing once an UPDATE admission request came first. -/
+theorem admitted_first_witness :
+    let e : Event :=
+      { byListing := true, deleted := false, marked := false, blocked := false, oldAbsent := false,
+        diffNonEmpty := false, suppressed := false, matchF := fun _ => true,
+        limits := fun _ => ⟨none, none⟩, lifecycle := .allAtOnce, now := 3, now1 := 3,
+        exec := fun _ _ => { final := true, delay := none, error := false, subrefs := [] } }
+    (step [⟨"r1", ⟨none, true, false⟩⟩] none (fun _ => none) e).invoked = [("r1", 0)] ∧
+    (causeOf (recall (admission none false) e) e).reason = .noop ∧
+    (step [⟨"r1", ⟨none, true, false⟩⟩] (admission none false) (fun _ => none) e).invoked = [] ∧
+    -- a CREATE request leaves no memory behind, and a request for a known object changes nothing
+    admission none true = none ∧
+    admission (some { noticed := true, fullyHandled := false }) false = some { noticed := true, fullyHandled := false } := by
+  refine ⟨by decide, by decide, by decide, rfl, rfl⟩
+
 /-! ### At most once per object per process
 
 Since /repo 6c4463d the operator remembers, per object, the resuming handlers that reached a final outcome
